@@ -44,11 +44,35 @@ func ChildMain(partName, tier string, seed uint64, from, to int, out string) int
 		_ = enc.Encode(childLine{Start: &idx})
 		_ = f.Sync()
 		fmt.Fprintf(os.Stderr, "=== case %s #%d seed=%d\n", partName, idx, seed)
-		res := p.Run(tier, seed, idx)
+		// per-case watchdog: a case that does not return within CaseTimeoutS is inconclusive; the goroutines it
+		// leaves behind cannot be trusted, so the child exits and the driver restarts it at the next case
+		perCase := p.CaseTimeoutS
+		if perCase == 0 {
+			perCase = 120
+		}
+		ch := make(chan Result, 1)
+		go func() { ch <- p.Run(tier, seed, idx) }()
+		var res Result
+		hung := false
+		select {
+		case res = <-ch:
+		case <-time.After(time.Duration(perCase) * time.Second):
+			hung = true
+			buf := make([]byte, 32<<20)
+			buf = buf[:runtime.Stack(buf, true)]
+			fmt.Fprintf(os.Stderr, "=== case watchdog fired after %d s; goroutines:\n%s\n", perCase, buf)
+			res = Result{Verdict: Inconclusive, Detail: fmt.Sprintf("case watchdog fired after %d s (goroutine dump in the child's log)", perCase)}
+		}
 		res.Part = partName
 		res.Case = idx
 		_ = enc.Encode(childLine{Result: &res})
 		_ = f.Sync()
+		if hung {
+			if i+1 < to {
+				return ExitRestart
+			}
+			return 0
+		}
 		if res.RestartChild && i+1 < to {
 			return ExitRestart
 		}
